@@ -1,4 +1,5 @@
 import Walrus.Proofs.Gc
+import Walrus.Proofs.GcFuel
 
 /-!
 # C07 — GC is precise and idempotent
@@ -47,6 +48,25 @@ theorem usedSet_complete (g : GcInfo) (hdone : usedFinished g = true) (x : Ent)
   · exact List.mem_append_left _ this
   · exact this
 
+/-- **the worklist terminates** on every module whose references are in range (`gcWF`: roots and
+    successor edges lead to entities that exist — what validation guarantees; the driver evaluates it
+    on every case): it empties its stack within `|universe|` iterations, which the model's fuel
+    covers.  Nothing is pushed twice, every iteration marks one new entity. -/
+theorem worklist_terminates (g : GcInfo) (h : gcWF g = true) : usedFinished g = true :=
+  gcWF_finishes g h
+
+/-- … so for every such module the used set is exactly the reachable set plus the residue -/
+theorem usedSet_is_reachable_set (g : GcInfo) (h : gcWF g = true) (x : Ent) :
+    x ∈ usedSet g ↔ (Reach (gcSucc g) (gcRoots g).eraseDups x ∨ (x ∈ usedSet g ∧ x = ("m", 0))) := by
+  constructor
+  · intro hx
+    rcases usedSet_precise g (gcWF_finishes g h) x hx with h1 | h1
+    · exact Or.inl h1
+    · exact Or.inr ⟨hx, h1⟩
+  · rintro (h1 | h1)
+    · exact usedSet_complete g (gcWF_finishes g h) x h1
+    · exact h1.1
+
 /-- **idempotence of the marking**: after the sweep every surviving entity still has the successors
     it had (hypothesis: the successor relation of the swept module agrees with the original one on
     everything reachable), so a second run of the worklist marks exactly the same set — nothing
@@ -75,6 +95,7 @@ def sample : ModuleM :=
 
 example : (mkGcInfo sample).map (fun g => (usedFinished g, (usedSet g).filter (·.1 ≠ "y"))) =
     some (true, [("f", 0), ("f", 2), ("g", 1)]) := by decide
+example : (mkGcInfo sample).map gcWF = some true := by decide
 example : (gcRoundTrip sample).map (fun o => (o.funcs.length, o.globals.length, o.exports)) =
     some (2, 1, [("run", "f", 1)]) := by decide
 
